@@ -41,15 +41,14 @@ def from_callback_(
 
                     observer.on_next(results)
                 else:
-                    if len(results) <= 1:
-                        observer.on_next(*results)
+                    if len(results) == 1:
+                        observer.on_next(results[0])
                     else:
                         observer.on_next(results)
 
-                    observer.on_completed()
+                observer.on_completed()
 
-            arguments.append(handler)
-            func(*arguments)
+            func(*arguments, handler)
             return Disposable()
 
         return Observable(subscribe)
